@@ -31,18 +31,22 @@ Cfgs == { [grease |-> FALSE, write |-> "all", uni_credit |-> 100], [grease |-> T
 Hold == <<[op |-> "hold"]>>
 Ends(p) == p # <<>> /\ p[Len(p)].op \in {"finish", "drop"}
 
+\* shutdown(n): sh >= 0 is n itself; -2 stands for usize::MAX, -3 for 2^60 (the addition to the last stream id must saturate at the
+\* largest REQUEST stream id, not at the largest integer)
+ShOp(sh, net) == IF sh >= 0 THEN [op |-> "shutdown", net |-> net, n |-> sh] ELSE IF sh = -2 THEN [op |-> "shutdown", net |-> net, n |-> 0, n_max |-> TRUE]
+                 ELSE [op |-> "shutdown", net |-> net, n |-> 0, n_pow |-> 60]
 ScnC(p, cfg, sh, second) ==
     LET r1 == [op |-> "request", task |-> "r1", prog |-> <<HeadOp("client")>> \o p \o (IF Ends(p) THEN <<>> ELSE Hold)]
         r2 == [op |-> "request", task |-> "r2", prog |-> <<HeadOp("client"), [op |-> "finish"]>>]
     IN [part |-> "P", role |-> "client", cfg |-> cfg, prog |-> p,
-        steps |-> <<r1>> \o (IF sh >= 0 THEN <<[op |-> "shutdown", net |-> "c", n |-> sh]>> ELSE <<>>) \o (IF second THEN <<r2>> ELSE <<>>)
+        steps |-> <<r1>> \o (IF sh # -1 THEN <<ShOp(sh, "c")>> ELSE <<>>) \o (IF second THEN <<r2>> ELSE <<>>)
                   \o (IF cfg.uni_credit = 3 THEN <<[op |-> "grant", uni |-> 2, bidi |-> 0]>> ELSE <<>>)]
 ScnS(p, cfg, sh, second) ==
     LET req(id) == <<[op |-> "deliver", sid |-> id, bytes |-> Frame(1, ReqSection)], [op |-> "fin", sid |-> id]>>
         h == <<[op |-> "resolve"], HeadOp("server")>> \o p \o (IF Ends(p) THEN <<>> ELSE Hold)
     IN [part |-> "P", role |-> "server", cfg |-> cfg, prog |-> p, handlers |-> <<h, <<[op |-> "resolve"], HeadOp("server"), [op |-> "finish"]>>>>,
-        steps |-> req(0) \o (IF sh >= 0 THEN <<[op |-> "shutdown", n |-> sh]>> ELSE <<>>) \o (IF second THEN req(4) ELSE <<>>)
-                  \o (IF sh >= 0 THEN <<[op |-> "shutdown", n |-> 0]>> ELSE <<>>)
+        steps |-> req(0) \o (IF sh # -1 THEN <<ShOp(sh, "s")>> ELSE <<>>) \o (IF second THEN req(4) ELSE <<>>)
+                  \o (IF sh # -1 THEN <<[op |-> "shutdown", net |-> "s", n |-> 0]>> ELSE <<>>)
                   \o (IF cfg.uni_credit = 3 THEN <<[op |-> "grant", uni |-> 2, bidi |-> 0]>> ELSE <<>>)]
 
 \* part G: the peer's control stream delivers SETTINGS and then further frames one by one while the endpoint's own unidirectional
@@ -58,8 +62,9 @@ CfgsG == { [grease |-> TRUE, write |-> w, uni_credit |-> c] : w \in {"all", "1",
 VARIABLE out
 Init == out = <<>>
 Next == /\ out = <<>>
-        /\ \E p \in Progs(MaxCalls, 1), cfg \in Cfgs, sh \in {-1, 0, 1, 15, 4095}, second \in BOOLEAN, role \in {"client", "server"} :
-              /\ (sh >= 0 \/ second) => (Len(p) <= 2)                 \* keep the product bounded
+        /\ \E p \in Progs(MaxCalls, 1), cfg \in Cfgs, sh \in {-1, 0, 1, 15, 4095, -2, -3}, second \in BOOLEAN, role \in {"client", "server"} :
+              /\ (sh # -1 \/ second) => (Len(p) <= 2)                 \* keep the product bounded
+              /\ (sh < -1) => (Len(p) <= 1 /\ cfg.write = "all")
               /\ out' = (IF role = "client" THEN ScnC(p, cfg, sh, second) ELSE ScnS(p, cfg, sh, second))
 NextG == /\ out = <<>>
          /\ \E role \in {"client", "server"}, cfg \in CfgsG, f1 \in PeerFrames, f2 \in PeerFrames : out' = ScnG(role, cfg, f1, f2)
